@@ -21,10 +21,18 @@ let out_of (t : int) (text : string) : cl_out list =
   | ["EXIT"] -> [CoExit nt]
   | _ -> []
 
-let step (cfg : cl_cfg) (s : cl_state) (ev : cl_event) (iouts : (int * string) list) (m : cmon) : (string * string) list * cmon =
-  let os = List.concat_map (fun (t, x) -> out_of t x) iouts in
+let step1 (cfg : cl_cfg) (s : cl_state) (ev : cl_event) (os : cl_out list) (m : cmon) : (string * string) list * cmon =
   let tag p l = List.map (fun c -> (p, "clause" ^ string_of_int (int_of_n c))) l in
   let (m', mf) = cmon_step cfg s ev os m in
   (tag "C23" (chk_C23c os) @ tag "C27" (chk_C27 cfg s ev os) @ tag "C17" (chk_C17 cfg s ev os) @ tag "C31" (chk_C31c cfg os)
    @ List.map (fun c -> let c = int_of_n c in ("C06", if c < 10 then Printf.sprintf "clause%d class=same-id-both-directions" c else Printf.sprintf "clause%d" (c - 10))) (chk_C06c cfg s ev os)
    @ List.map (fun (p, c) -> (Printf.sprintf "C%02d" (int_of_n p), Printf.sprintf "clause%d" (int_of_n c))) mf, m')
+
+(* The checkers run on the implementation's outputs and on the model's own outputs (each with its
+   own monitor): "model=fails" marks a failure that the faithful model shows in the same step (a
+   refutation theorem's situation, the only thing a recorded finding may describe). *)
+let step (cfg : cl_cfg) (s : cl_state) (ev : cl_event) (iouts : (int * string) list) (mouts : cl_out list) ((m, mm) : cmon * cmon)
+  : (string * string) list * (cmon * cmon) =
+  let (fi, m') = step1 cfg s ev (List.concat_map (fun (t, x) -> out_of t x) iouts) m in
+  let (fm, mm') = step1 cfg s ev mouts mm in
+  (List.map (fun (p, c) -> (p, c ^ (if List.mem (p, c) fm then " model=fails" else " model=holds"))) fi, (m', mm'))
